@@ -723,27 +723,43 @@ func buildTargets() []*target {
 			}
 			return "verified"
 		}})
+	// What the storage worker does with a write log received from a storage-sync peer
+	// (worker/storage/committee -> storage/api RootCache.Apply): ApplyWriteLog on a tree over the
+	// previous root, and only then the comparison of the resulting root with the expected one.
+	runWriteLog := func(data []byte) string {
+		var l writelog.WriteLog
+		if err := cbor.Unmarshal(data, &l); err != nil {
+			return rej(err, "rejected:decode")
+		}
+		if len(l) > 4096 {
+			return "decoded:long"
+		}
+		t := mkvs.New(nil, nil, mkvsNode.RootTypeState)
+		defer t.Close()
+		if err := t.ApplyWriteLog(ctxBg, writelog.NewStaticIterator(l)); err != nil {
+			return rej(err, "rejected:apply")
+		}
+		if _, _, err := t.Commit(ctxBg, w.rtID, 2); err != nil {
+			return rej(err, "rejected:commit")
+		}
+		return "applied"
+	}
 	add(&target{name: "writelog", boundary: "write logs", cbor: true,
-		path:  "cbor.Unmarshal(writelog.WriteLog) -> iterate -> apply to an in-memory tree",
-		seeds: [][]byte{cbor.Marshal(wl), cbor.Marshal(wl[:3])},
-		run: func(data []byte) string {
-			var l writelog.WriteLog
-			if err := cbor.Unmarshal(data, &l); err != nil {
-				return rej(err, "rejected:decode")
-			}
-			if len(l) > 4096 {
-				return "decoded:long"
-			}
-			t := mkvs.New(nil, nil, mkvsNode.RootTypeState)
-			defer t.Close()
-			if err := t.ApplyWriteLog(ctxBg, writelog.NewStaticIterator(l)); err != nil {
-				return rej(err, "rejected:apply")
-			}
-			if _, _, err := t.Commit(ctxBg, w.rtID, 2); err != nil {
-				return rej(err, "rejected:commit")
-			}
-			return "applied"
-		}})
+		path:  "cbor.Unmarshal(writelog.WriteLog) -> mkvs.Tree.ApplyWriteLog -> Commit (storage/api RootCache.Apply)",
+		seeds: [][]byte{cbor.Marshal(wl), cbor.Marshal(wl[:3])}, run: runWriteLog})
+	// Huge declared sizes at the structure level: write logs whose keys are as long as the
+	// 16-bit bit-depth arithmetic of the tree allows, and longer.
+	var longKeyLogs [][]byte
+	for _, n := range []int{4096, 8190, 8191, 8192, 8193, 65535, 65536} {
+		a := bytes.Repeat([]byte{0xaa}, n)
+		b := append(bytes.Repeat([]byte{0xaa}, n-1), 0xab)
+		longKeyLogs = append(longKeyLogs, cbor.Marshal(writelog.WriteLog{
+			{Key: a, Value: []byte{1}}, {Key: b, Value: []byte{2}}, {Key: []byte("x"), Value: []byte{3}},
+		}))
+	}
+	add(&target{name: "writelog-keys", boundary: "write logs (key lengths around 2^13 and 2^16 bytes)", cbor: true,
+		path:  "cbor.Unmarshal(writelog.WriteLog) -> mkvs.Tree.ApplyWriteLog [tree.Insert -> doInsert -> Key.GetBit / Split with uint16 bit depths] -> Commit",
+		seeds: longKeyLogs, run: runWriteLog})
 
 	// ---------------------------------------------------------------- checkpoint chunks
 	add(chunkTarget(w, tree, root))
